@@ -6,12 +6,22 @@ Ids == 1..200
 VARIABLES tid, l, sco, flg, par, bad
 vars == <<tid, l, sco, flg, par, bad>>
 \* sco[s] = [owner, kind, f, open, trig (trigger time known), tt (trigger time), exited]
-NoScope == [owner |-> 0, kind |-> "", f |-> 0, open |-> FALSE, trig |-> FALSE, tt |-> 0, exited |-> FALSE]
+NoScope == [owner |-> 0, kind |-> "", f |-> 0, open |-> FALSE, trig |-> FALSE, tt |-> 0, exited |-> FALSE, c |-> <<>>]
 Init == /\ tid \in 1..N /\ l = 1 /\ bad = ""
         /\ sco = [s \in Ids |-> NoScope] /\ flg = [f \in 1..4 |-> FALSE] /\ par = [k \in Ids |-> 0]
 Fail(c) == bad' = c /\ UNCHANGED <<sco, flg>>
 \* blocks whose trigger time the monitor knows: a delay, a flag, a date condition
-Timed(sc) == sc.kind \in {"until_d", "until_f", "until_date"}
+Timed(sc) == sc.kind \in {"until_d", "until_f", "until_date", "until_conn"}
+\* truth of a connective of flag atoms (<<"all"|"any", <<atoms>>>>, atoms <<"flag"|"nflag", f>>) for flag values fl
+RECURSIVE EvC(_, _)
+EvC(c, fl) == CASE c[1] = "flag" -> fl[c[2]] [] c[1] = "nflag" -> ~fl[c[2]]
+                [] c[1] = "all" -> \A i \in 1..Len(c[2]) : EvC(c[2][i], fl)
+                [] c[1] = "any" -> \E i \in 1..Len(c[2]) : EvC(c[2][i], fl)
+                [] OTHER -> FALSE
+IsConn(e) == e.kind = "until_c" /\ e.c[1] \in {"all", "any"}
+\* the block(s) S outlived the moment their notification fired: if all of them wait for a connective that became true
+\* after entry, this is the one way in which until(<connective>) is known to fail (nothing watches the connective)
+Clause(S, c) == IF \A s \in S : sco[s].kind = "until_conn" THEN "C07.connective_not_watched" ELSE c
 RECURSIVE Inside(_, _, _)
 Inside(k, s, fuel) == IF fuel = 0 \/ k \notin Ids \/ par[k] = 0 THEN FALSE
                       ELSE par[k] = s \/ Inside(sco[par[k]].owner, s, fuel - 1)
@@ -32,35 +42,42 @@ Step ==
      \* no code of the owner runs inside the block at a time later than the trigger
      ELSE IF e.e \in {"b", "r", "x", "p"} /\ ~(F(e, "blk", "") = "scope" /\ op \in {"leave", "body"})
              /\ \E s \in Ids : sco[s].owner = a /\ sco[s].open /\ sco[s].trig /\ t > sco[s].tt
-          THEN Fail("C07.body_continued_after_trigger")
+          THEN Fail(Clause({s \in Ids : sco[s].owner = a /\ sco[s].open /\ sco[s].trig /\ t > sco[s].tt}, "C07.body_continued_after_trigger"))
      \* ... and no code of its children (they are closed when the notification fires)
      ELSE IF e.e \in {"b", "r", "x", "p"} /\ \E s \in Ids : sco[s].trig /\ t > sco[s].tt /\ Inside(a, s, 8)
-          THEN Fail("C07.child_ran_after_trigger")
+          THEN Fail(Clause({s \in Ids : sco[s].trig /\ t > sco[s].tt /\ Inside(a, s, 8)}, "C07.child_ran_after_trigger"))
      ELSE CASE e.e = "b" /\ op = "open" ->
                  LET k == e.kind
                      isdate == k = "until_c" /\ e.c[1] \in {"ge", "eq"}
                      \* a date condition fires at its date, at once if it already holds, never if a moment has passed
                      trig == k = "until_d" \/ (k = "until_f" /\ flg[e.f]) \/ (isdate /\ ~(e.c[1] = "eq" /\ t > e.c[2]))
+                             \/ (IsConn(e) /\ EvC(e.c, flg))
                      \* (`due`: now + delay as the harness computed it; recorded dates may be ranks of float dates)
                      tt == IF k = "until_d" THEN F(e, "due", t + F(e, "d", 0)) ELSE IF isdate /\ e.c[2] > t THEN e.c[2] ELSE t IN
-                 /\ sco' = [sco EXCEPT ![e.s] = [owner |-> a, kind |-> IF isdate THEN "until_date" ELSE k, f |-> F(e, "f", 0), open |-> TRUE,
-                                                 trig |-> trig, tt |-> tt, exited |-> FALSE]]
+                 /\ sco' = [sco EXCEPT ![e.s] = [owner |-> a, kind |-> IF isdate THEN "until_date" ELSE IF IsConn(e) THEN "until_conn" ELSE k,
+                                                 f |-> F(e, "f", 0), open |-> TRUE,
+                                                 trig |-> trig, tt |-> tt, exited |-> FALSE, c |-> IF IsConn(e) THEN e.c ELSE <<>>]]
                  /\ UNCHANGED <<flg, bad>>
             [] e.e = "b" /\ op = "fset" ->
                  /\ flg' = [flg EXCEPT ![e.f] = e.v]
                  \* the notification of every open until(flag) fires now
+                 \* ... and that of every open until(<connective>) that holds from now on
                  /\ sco' = [s \in Ids |-> IF sco[s].open /\ sco[s].kind = "until_f" /\ sco[s].f = e.f /\ e.v
                                              /\ ~flg[e.f] /\ ~sco[s].trig
+                                          THEN [sco[s] EXCEPT !.trig = TRUE, !.tt = t]
+                                          ELSE IF sco[s].open /\ sco[s].kind = "until_conn" /\ ~sco[s].trig
+                                                  /\ EvC(sco[s].c, [flg EXCEPT ![e.f] = e.v])
                                           THEN [sco[s] EXCEPT !.trig = TRUE, !.tt = t] ELSE sco[s]]
                  /\ UNCHANGED bad
             [] e.e \in {"r", "x", "u"} /\ F(e, "blk", "") = "scope" /\ op \in {"leave", "body"} ->
                  LET s == e.id IN
-                 IF sco[s].trig /\ t > sco[s].tt THEN Fail("C07.late_exit")
+                 IF sco[s].trig /\ t > sco[s].tt THEN Fail(Clause({s}, "C07.late_exit"))
                  ELSE IF x # <<>> /\ x[1] = "ci" /\ x[2] = s THEN Fail("C07.raised")
                  ELSE sco' = [sco EXCEPT ![s].open = FALSE, ![s].exited = TRUE] /\ UNCHANGED <<flg, bad>>
             [] e.e = "fin" ->
                  \* a block whose notification fired cannot still be open when the run ends normally
-                 IF e.ok /\ \E s \in Ids : sco[s].open /\ sco[s].trig THEN Fail("C07.never_interrupted")
+                 IF e.ok /\ \E s \in Ids : sco[s].open /\ sco[s].trig
+                 THEN Fail(Clause({s \in Ids : sco[s].open /\ sco[s].trig}, "C07.never_interrupted"))
                  ELSE UNCHANGED <<sco, flg, bad>>
             [] OTHER -> UNCHANGED <<sco, flg, bad>>
 Spec == Init /\ [][Step]_vars
